@@ -374,7 +374,7 @@ pub fn random_scfg(r: &mut R, small_scale: bool) -> SCfg {
         level: 0,
         block_size: *pick(r, &[0usize, 1024, 4096]),
         interval: *pick(r, &[1usize, 3, 8]),
-        levels: *pick(r, &[0u8, 0, 1, 2]),
+        levels: *pick(r, &[0u8, 0, 1, 2, 3, 4]),
     };
     let hook = if small_scale {
         // budgets on, just below and well below the capacities the doubling buffer can take
@@ -421,6 +421,16 @@ pub fn scn_sorter(out: &mut TraceOut, r: &mut R, idx: u64, heavy: bool) {
         let key = vec![b'd', b'u', b'p'];
         let n = 2600 + (idx as usize % 5) * 300;
         let inserts: Vec<Entry> = (0..n).map(|i| (if i % 97 == 0 { vec![b'z'] } else { key.clone() }, stoken(i as u32 + 1, if i % 3 == 0 { 0 } else { 8 }))).collect();
+        let ids: Vec<u32> = (1..=n as u32).collect();
+        run_logged(out, &cfg, &inserts, &ids);
+        return;
+    }
+    // corner: chunks of ~100 entries with 300-byte keys and deep index trees
+    if idx % 41 == 9 {
+        cfg.hook = Some((40_000, 1024));
+        cfg.chunk = Cfg { codec: 0, level: 0, block_size: 1024, interval: *pick(r, &[1usize, 8]), levels: *pick(r, &[3u8, 4]) };
+        let n = 700;
+        let inserts: Vec<Entry> = (0..n).map(|i| (long_key(r.gen_range(0..300u32)), stoken(i as u32 + 1, *pick(r, &[0usize, 8, 9])))).collect();
         let ids: Vec<u32> = (1..=n as u32).collect();
         run_logged(out, &cfg, &inserts, &ids);
         return;
